@@ -23,6 +23,8 @@ def run(ctx):
     LK.k6_one_way_table(ctx, K)
     LK.k7_seen_threading(ctx)
     LK.k10_representative_freshness(ctx, K)
+    LK.k12_union_find_discipline(ctx)
+    ctx.floor("K12", 2)
     ctx.floor("K10", 4)
     ctx.floor("K1", 6)
     ctx.floor("K6", 2)
